@@ -76,3 +76,7 @@ pub use user_model::BorderArea;
 pub use user_model::ClipboardData;
 pub use user_model::UserModel;
 pub use utils::get_all_timezones;
+
+#[cfg(feature = "verif")]
+pub use crate::functions::Function;
+
